@@ -287,13 +287,22 @@ func checkRoundTrip(s Session, r *sessRun) *Violation {
 	}
 	got, err := parseDoc(string(out), s.RT.YAML)
 	if err != nil {
-		return viol14("round-trip-unparsable", p, e, "patched output does not parse: %v: %s", err, show(out))
+		v := viol14("round-trip-unparsable", p, e, "patched output does not parse: %v: %s", err, show(out))
+		if s.RT.YAML && yamlMergeKey(s) {
+			v.Tag = "yaml-merge-key"
+		}
+		return v
 	}
 	m := cmpMode{Arrays: s.RT.Arrays, Eps: s.RT.Eps}
 	if !equalVals(got, tgt, m) {
 		if f0 := parseArgv(s.Procs[0].Argv); s.RT.Merge && f0.output != "" && strings.TrimSpace(string(r.FSPost[0].Files[r.FSPost[0].Resolve(f0.output)])) == "{}" {
 			v := viol14("round-trip-differs", p, e, "the merge patch `jd %s` wrote is {} (a non-object document becoming the empty object); `jd %s` then leaves the document unchanged: got %s, second input was %s", strings.Join(s.Procs[0].Argv, " "), strings.Join(p.Argv, " "), show(out), show([]byte(tgtText)))
 			v.Tag = "empty-object-merge-patch"
+			return v
+		}
+		if s.RT.YAML && yamlMergeKey(s) {
+			v := viol14("round-trip-differs", p, e, "YAML output writes the object key \"<<\" unquoted, which reads back as a YAML merge key: `jd %s` then `jd %s` produced %s, second input was %s (the same session passes when the key has another name)", strings.Join(s.Procs[0].Argv, " "), strings.Join(p.Argv, " "), show(out), show([]byte(tgtText)))
+			v.Tag = "yaml-merge-key"
 			return v
 		}
 		if len(s.RT.Keys) > 1 && setkeysPermutedIdentity(s, s.RT.Keys, s.RT.YAML) {
@@ -1055,18 +1064,8 @@ func setkeysPermutedIdentity(s Session, keys []string, yaml bool) bool {
 	if len(keys) < 2 {
 		return false
 	}
-	s2 := s
-	s2.Files = append([]File(nil), s.Files...)
-	found := false
-	for i, f := range s2.Files {
-		v, err := parseDoc(string(f.Data), yaml)
-		if err != nil || v == nil {
-			continue
-		}
-		if permutedIdentities(v, keys) {
-			found = true
-		}
-		v = v.clone()
+	return sessionPassesAfter(s, yaml, func(v *Val) bool {
+		found := permutedIdentities(v, keys)
 		for _, c := range containers(v, nil) {
 			if c.K != 'a' {
 				continue
@@ -1081,6 +1080,50 @@ func setkeysPermutedIdentity(s Session, keys []string, yaml bool) bool {
 					}
 				}
 			}
+		}
+		return found
+	})
+}
+
+// yamlMergeKey labels a failure of a YAML session: it holds when a document of
+// the session has an object key "<<" (which yaml.v2 writes unquoted, and which
+// then reads back as a YAML merge key) and the very same session passes once
+// that key is called "lt".
+func yamlMergeKey(s Session) bool {
+	return sessionPassesAfter(s, true, func(v *Val) bool {
+		found := false
+		for _, c := range containers(v, nil) {
+			if c.K != 'o' {
+				continue
+			}
+			for i, k := range c.Keys {
+				if k == "<<" {
+					found = true
+					c.Keys[i] = "lt-was-merge-key"
+				}
+			}
+		}
+		return found
+	})
+}
+
+// sessionPassesAfter rewrites every document file of the session with rewrite
+// (which reports whether the document had the shape in question), and, if some
+// document had it, re-runs the rewritten session and reports whether the
+// status and round-trip clauses of C14 all hold for it. Used only to label a
+// failure with its cause, never to excuse one silently.
+func sessionPassesAfter(s Session, yaml bool, rewrite func(v *Val) bool) bool {
+	s2 := s
+	s2.Files = append([]File(nil), s.Files...)
+	found := false
+	for i, f := range s2.Files {
+		v, err := parseDoc(string(f.Data), yaml)
+		if err != nil || v == nil {
+			continue
+		}
+		v = v.clone()
+		if rewrite(v) {
+			found = true
 		}
 		s2.Files[i].Data = Blob(v.JSON(0))
 	}
